@@ -41,7 +41,7 @@ def run(ck):
     ck.obligation(f'Coq model of sim.Heap = implementation on {len(cases)} histories: returned location and full tables '
                   '(chunks, released, current_size, max_size) after every step', ran and not bad, 'correspondence', f'failing histories {bad[:8]}')
     # --- memory map of SimOps -----------------------------------------------------------------------
-    so_cases = []
+    so_cases, cert_circs = [], []
     for i in range(ck.scale(90, 2500)):
         c, caps, cmin, reuse, strip = gen_map_case(rng)
         so, d = sc.run_impl(c, caps, cmin, reuse, strip)
@@ -56,6 +56,8 @@ def run(ck):
             fails.append(('map', desc, msg))
         if i % 2 == 0:
             so_cases.append((c, caps, cmin, reuse, strip, d))
+        if i % 3 == 0:
+            cert_circs.append((c, reuse, strip))
     chunks = [so_cases[i:i + 15] for i in range(0, len(so_cases), 15)]
     outs = ck.coq_eval_many('so', [sc.cases_file(ch) for ch in chunks], jobs=12)
     bad = [ci * 15 + j for ci, (ok, out) in enumerate(outs) for j in ((cg.parse_nat_list(out) if ok else None) or [])]
@@ -63,6 +65,7 @@ def run(ck):
     ck.obligation(f'Coq model of SimOps.__init__ (ops, levels, reference counts, allocation through the Heap model, aliasing) = '
                   f'implementation on {len(so_cases)} circuits x capacity vectors x options', ran and not bad, 'correspondence',
                   f'failing cases {bad[:8]}')
+    sc.run_certs(ck, cert_circs, 'memory map')
     ck.rule('allocator: random alloc/free histories (mixed/LIFO/FIFO/bursts/same-size; sizes 1..64) compared after every step + '
             'invariant oracle; map: random circuits x capacity vectors x c_reuse x strip_forks, independent liveness/overlap/alias checker')
     ck.trust('the allocator theorems hold for ALL histories of the Gallina transcription Model/Heap.v (tied to sim.Heap by comparing '
